@@ -124,10 +124,20 @@ def it_sparse(c):
     vals = {i: I(w, 'v%d' % i) for i in idx}
     if c.get('default'):
         vals['default'] = I(w, 'dflt')
+    outs = {}
+    if c.get('reuse'):
+        # a history on the caller's table: the same dict was first used for a mux with a narrower select
+        s0 = I(c['reuse'], 's0')
+        outs['r0'] = muxes.sparse_mux(s0, vals)
     r = muxes.sparse_mux(s, vals)
+    outs['r'] = r
 
     def orc(ins):
-        return {'r': _sel_chain(ins['s'], {i: ins['v%d' % i] for i in idx}, ins.get('dflt', 0))}
+        table = {i: ins['v%d' % i] for i in idx}
+        res = {'r': _sel_chain(ins['s'], table, ins.get('dflt', 0))}
+        if c.get('reuse'):
+            res['r0'] = _sel_chain(ins['s0'], table, ins.get('dflt', 0))
+        return res
 
     def assume(ins):
         if c.get('default'):
@@ -135,7 +145,7 @@ def it_sparse(c):
         from ..sym import to_cond
         import z3
         return [z3.Or(*[to_cond(ins['s'] == i) for i in idx])]
-    return {'outs': {'r': r}, 'oracle': orc, 'assume': assume}
+    return {'outs': outs, 'oracle': orc, 'assume': assume}
 
 
 def it_prio(c):
@@ -503,6 +513,8 @@ def cases(tier, seed):
             for idx in itertools.combinations(rng, k):
                 for d in (False, True):
                     out.append({'item': 'sparse', 'sw': sw, 'w': 2, 'idx': list(idx), 'default': d})
+                    if d and sw == 3 and max(idx) < 4:
+                        out.append({'item': 'sparse', 'sw': sw, 'w': 2, 'idx': list(idx), 'default': d, 'reuse': 2})
     for n in range(1, 7 if tier == 'quick' else 10):
         out.append({'item': 'prio', 'n': n, 'w': 2})
     for opts in ([0], [1, 2], [0, 3], [0, 1, 2, 3], [5], [1, 6, 7]):
